@@ -33,8 +33,12 @@ def analyse_case(args) -> Dict:
               'facilities': lambda: scenarios.facilities(prog, pc, out['stats']),
               'final_construct': lambda: scenarios.final_construct(prog, pc, out['stats']),
               'mc_step': lambda: scenarios.multi_client_step(prog, pc, out['stats'],
-                                                             opts.get('n_clients', 2))}[what]
-        findings = fn()
+                                                             opts.get('n_clients', 2)),
+              'mc_threads': None}[what]
+        if what == 'mc_threads':
+            findings = _mc_threads(prog, pc, info, d, opts, out)
+        else:
+            findings = fn()
         out['findings'] = [{'prop': f.prop, 'what': f.what, 'witness': _plain(f.witness)} for f in findings]
     except (Unsupported, explore.Inconclusive, frontend.FrontendError) as exc:
         out['status'] = 'inconclusive'
@@ -49,6 +53,80 @@ def analyse_case(args) -> Dict:
         shutil.rmtree(d, ignore_errors=True)
     out['wall_s'] = round(time.time() - t0, 2)
     return out
+
+
+def _mc_threads(prog, pc, info, d, opts, out):
+    """C11: schedule exploration on the abstract machine, then trusted-base validation on the compiled program:
+    sampled schedules must give the same observable events, and free runs under ThreadSanitizer must be silent
+    unless the machine found a race as well."""
+    from . import tscenario, cppthreads
+    from .scenarios import Finding
+    findings = list(tscenario.mutex_wrapped_protocol(prog, pc, out['stats']))
+    clients = [f'c{i}' for i in range(opts.get('n_clients', 2))]
+    val = {'checked': 0, 'agree': 0, 'detail': '', 'events': 0, 'tsan_runs': 0, 'schedules': 0}
+    out['validation'] = val
+    for cfgi, (cycles, n_out, preempt) in enumerate(opts.get('configs', [(1, 1, 2)])):
+        samples: List = []
+        before = out['stats']['paths']
+        fs = tscenario.mc_threads(prog, pc, out['stats'], cycles=cycles, n_out=n_out, max_preempt=preempt,
+                                  max_schedules=opts.get('max_schedules', 20000), n_clients=len(clients),
+                                  samples_out=samples, sample_every=opts.get('sample_every', 97))
+        for f in fs:
+            f.witness['clients'] = clients
+        findings += [f for f in fs if f.witness.get('key') not in {g.witness.get('key') for g in findings}]
+        val['schedules'] += out['stats']['paths'] - before
+        n_val = opts.get('n_validate', 3)
+        if n_val and samples:
+            exe, diag = cppthreads.build(info, pc, d, cycles, n_out, clients)
+            if not exe:
+                val['detail'] = 'threaded driver does not compile: ' + diag[:300]
+                continue
+            step = max(1, len(samples) // n_val)
+            for smp in samples[::step][:n_val]:
+                st, stdout, _err = cppthreads.run(exe, smp['schedule'])
+                ce = cppthreads.events_of(stdout)
+                me = [tuple(e) for e in smp['events']]
+                val['checked'] += 1
+                if st == 'ok' and ce == me and not cppthreads.judge(stdout):
+                    val['agree'] += 1
+                    val['events'] += len(me)
+                elif not val['detail']:
+                    val['detail'] = (f'schedule {",".join(smp["schedule"])}: machine events {me} vs compiled '
+                                     f'{ce} ({st})')[:900]
+    # MutexWrapped on the compiled header
+    st, fails = cppthreads.run_mutex_wrapped(info, d)
+    if st == 'ok':
+        machine_mw = [f for f in findings if f.witness.get('mw')]
+        if bool(fails) != bool(machine_mw) and not val['detail']:
+            val['detail'] = f'MutexWrapped: machine {[f.what for f in machine_mw]} vs compiled {fails}'
+            val['checked'] += 1
+        else:
+            val['checked'] += 1
+            val['agree'] += 1
+    elif not val['detail']:
+        val['detail'] = 'MutexWrapped driver: ' + st
+    # free runs under ThreadSanitizer
+    n_tsan = opts.get('tsan_runs', 0)
+    if n_tsan:
+        cycles, n_out, _p = opts.get('configs', [(1, 1, 2)])[-1]
+        exe, diag = cppthreads.build(info, pc, d, max(cycles, 2), max(n_out, 2), clients, tsan=True)
+        if exe:
+            reports = set()
+            for _ in range(n_tsan):
+                st, _o, err = cppthreads.run(exe, [], timeout=120)
+                val['tsan_runs'] += 1
+                if st == 'timeout':
+                    reports.add('free run does not terminate (deadlock)')
+                reports.update(cppthreads.tsan_reports(err))
+            machine_race = any(str(f.witness.get('key', '')).startswith('C11:race') or 'deadlock' in f.what for f in findings)
+            if reports and not machine_race:
+                for r in sorted(reports)[:3]:
+                    findings.append(Finding('C11', f'ThreadSanitizer on the compiled program: {r}',
+                                            {'key': 'C11:tsan:' + r.split(':')[0], 'tsan': True, 'clients': clients,
+                                             'cycles': max(cycles, 2), 'n_out': max(n_out, 2)}))
+        elif not val['detail']:
+            val['detail'] = 'ThreadSanitizer build failed: ' + diag[:300]
+    return findings
 
 
 def _plain(x):
@@ -138,6 +216,63 @@ def replay_finding(args) -> Dict:
                     out['reproduced'] = bool(step_findings) or _step_deviates(res, text)
                 out['detail'] = (f'holder={holder} deliveries={ {k: v for k, v in res.items() if not k.startswith("__")} } '
                                  f'step: {step_findings}')[:500]
+        elif what == 'mc_threads':
+            from . import cppthreads
+            key = str(wit.get('key', ''))
+            clients = wit.get('clients', ['c0', 'c1'])
+            if wit.get('mw'):            # MutexWrapped protocol
+                st, fails = cppthreads.run_mutex_wrapped(info, d)
+                out['reproduced'] = bool(fails) if st == 'ok' else None
+                out['detail'] = f'{st}: {fails}'
+            elif wit.get('tsan') or key.startswith('C11:race'):
+                reps = set()
+                how = ''
+                if wit.get('schedule'):
+                    # the machine's schedule on the ThreadSanitizer build (gates do not synchronise there)
+                    exe, diag = cppthreads.build(info, pc, d, wit.get('cycles', 1), wit.get('n_out', 1), clients, tsan=True)
+                    if exe:
+                        st, _o, err = cppthreads.run(exe, wit['schedule'], timeout=120)
+                        reps.update(cppthreads.tsan_reports(err))
+                        how = 'under the schedule of the finding'
+                if not reps:
+                    exe, diag = cppthreads.build(info, pc, d, max(wit.get('cycles', 1), 2), max(wit.get('n_out', 1), 2),
+                                                 clients, tsan=True)
+                    if exe:
+                        for _ in range(12):
+                            st, _o, err = cppthreads.run(exe, [], timeout=120)
+                            reps.update(cppthreads.tsan_reports(err))
+                            if reps:
+                                how = 'in a free run'
+                                break
+                if exe:
+                    out['reproduced'] = bool(reps)
+                    out['detail'] = ('ThreadSanitizer ' + how + ': ' + '; '.join(sorted(reps)))[:400] if reps else \
+                        'ThreadSanitizer silent under the schedule and in 12 free runs'
+                else:
+                    out['detail'] = 'TSan build failed: ' + diag[:200]
+            else:
+                exe, diag = cppthreads.build(info, pc, d, wit.get('cycles', 1), wit.get('n_out', 1), clients)
+                if not exe:
+                    out['detail'] = 'build failed: ' + diag[:200]
+                else:
+                    st, stdout, _e = cppthreads.run(exe, wit.get('schedule', []))
+                    if 'deadlock' in key:
+                        out['reproduced'] = st == 'timeout'
+                        out['detail'] = 'compiled program does not terminate under the schedule' if st == 'timeout' \
+                            else 'compiled program terminates under the schedule'
+                    elif 'lock-then-dispatcher' in key:
+                        hz = [h for h in cppthreads.hazards_of(stdout) if h.startswith('lock-then-dispatcher')]
+                        out['reproduced'] = bool(hz)
+                        out['detail'] = '; '.join(hz)[:200]
+                    elif 'outside the dispatcher' in text:
+                        hz = [h for h in cppthreads.hazards_of(stdout) if h.startswith('outside-dispatcher')]
+                        out['reproduced'] = bool(hz)
+                        out['detail'] = '; '.join(hz)[:200]
+                    else:
+                        j = cppthreads.judge(stdout)
+                        out['reproduced'] = bool(j) if st == 'ok' else None
+                        out['detail'] = ('; '.join(j) or 'every out-event reached the holder')[:300] + \
+                            ' | events: ' + ' '.join(f'{t}:{e}' for t, e in cppthreads.events_of(stdout))[:600]
         elif what == 'facilities':
             hits = []
             for hp in (False, True):
